@@ -387,3 +387,58 @@ def r9(R):
               'changes')
     for v in vs:
         R.violation(v.node, v.message, g, v.path)
+
+
+# ------------------------------------------------------------------ C16.R10
+@rule('C16.R10', 'a commit through a demo storage gets an id later than the '
+      'last transaction of BOTH layers: unless the caller supplies the id, '
+      'tpc_begin consults the base before it lets the changes storage '
+      'choose', props=['C04'], min_instances=1)
+def r10(R):
+    cls = R.prog.cls(DS)
+    f = R.method(cls, 'tpc_begin')
+    g, b, F = R.cfg(f, cls, max_depth=0)
+    R.instance('DemoStorage.tpc_begin')
+    seen = [0]
+    varargs = {f.vararg, f.kwarg} - {None}
+
+    def edge(node, st, lab, tgt):
+        if lab in ('e', 'eb'):
+            return st
+        for op in F.ops(node):
+            if op.kind == 'call' and path_is(
+                    op.path, ('self', 'base', 'lastTransaction')):
+                st = 'consulted'
+        if node.kind == 'test' and lab in ('T', 'F') and st == 'start':
+            # the caller supplied positional / keyword arguments (an id)
+            names = {x.id for x in ast.walk(node.ast)
+                     if isinstance(x, ast.Name)}
+            if names & varargs:
+                for e, truth in implied_atoms(node.ast, lab):
+                    if isinstance(e, ast.Name) and e.id in varargs and truth:
+                        return 'caller-id'
+                    if isinstance(e, ast.BoolOp):
+                        # `not a and 'tid' not in k` failed: something given
+                        return 'caller-id' if not truth else st
+        return st
+
+    def at(node, st):
+        for op in F.ops(node):
+            if op.kind == 'call' and path_is(
+                    op.path, ('self', 'changes', 'tpc_begin')):
+                seen[0] += 1
+                if st == 'start':
+                    return Violation(
+                        'DemoStorage.tpc_begin lets the changes storage '
+                        'choose the transaction id without having looked at '
+                        'the base\'s last transaction: when that is later '
+                        'than the clock (a base stamped ahead) the new id is '
+                        'BELOW it, lastTransaction() goes backwards and new '
+                        'snapshots miss the base\'s newest revisions')
+        return st
+
+    vs, stats = explore(g, 'start', at=at, edge=edge)
+    R.count(stats)
+    R.require(seen[0] or vs, 'DemoStorage.tpc_begin no longer delegates')
+    for v in vs:
+        R.violation(v.node, v.message, g, v.path)
